@@ -31,7 +31,7 @@ theorem findLoop_eq (p : PSig) (d : Int) (rs : List Rec) (fz gen : Option TcpMat
         have he : isExact p d r = true := by simp [isExact, hm]
         have hf : isFuzzy p d r = false := by simp [isFuzzy, hm]
         cases hg : r.generic with
-        | false => simp [List.find?_cons, he, hg]
+        | false => simp [he, hg]
         | true =>
           simp only [Bool.not_true, Bool.false_eq_true, ↓reduceIte]
           rw [ih]
